@@ -137,7 +137,8 @@ def gammafit(x):
     xtsbar = xts / n
     s = log(xtsbar) - (logs / n)
 
-    if s == 0:
+    # s > 0 unless all values are equal; rounding can make it slightly negative
+    if s <= 0:
         return (0, 0)
 
     a_est = (3 - s + sqrt((s - 3) ** 2 + 24 * s)) / (12 * s)
